@@ -266,8 +266,12 @@ def nameEq (a b : Name) : Bool := cmpOrder a b == 0
 def nameHash (n : Name) : Nat :=
   n.foldl (fun h l => (lowerLabel l).foldl (fun h c => h + h * 8 + c) h) 0
 
+/-- Python's `labels[: -k]`: the bound `-0` is `0`, so `k = 0` yields the empty tuple, not the whole one. -/
+def sliceToNeg (n : Name) (k : Nat) : Name := if k = 0 then [] else n.take (n.length - k)
+
+/-- `Name(self[: -len(origin)])` when `self.is_subdomain(origin)` (so an *empty* origin gives the empty name). -/
 def relativize (n origin : Name) : Except NameErr Name :=
-  if isSubdomain n origin then validate (n.take (n.length - origin.length)) else .ok n
+  if isSubdomain n origin then validate (sliceToNeg n origin.length) else .ok n
 
 def derelativize (n origin : Name) : Except NameErr Name :=
   if !isAbs n then concatenate n origin else .ok n
